@@ -150,10 +150,39 @@ class ResendLoop:
     def __init__(self, env):
         self.env = env
 
+    for_node = None  # the ast.For of the replay loop (set by _LateLoop): the two gap counters are found by their role
+
+    def _names(self):
+        """(gap begin, gap end, other names the body assigns): by role in the loop body, not by spelling -
+             if <session row or declined>:  END = ...          (the only statement of the branch)
+             else:                          ...; BEGIN = ...   (the last statement of the branch)
+        falls back to the names of the pinned source."""
+        import ast
+        begin, end, others = "gap_fill_begin", "gap_fill_end", set()
+        node = self.for_node
+        if node is not None:
+            for st in node.body:
+                if isinstance(st, ast.If) and len(st.body) == 1 and isinstance(st.body[0], ast.Assign) \
+                        and isinstance(st.body[0].targets[0], ast.Name) and st.orelse \
+                        and isinstance(st.orelse[-1], ast.Assign) and isinstance(st.orelse[-1].targets[0], ast.Name):
+                    end, begin = st.body[0].targets[0].id, st.orelse[-1].targets[0].id
+            for n in ast.walk(node):
+                if isinstance(n, ast.Name) and isinstance(n.ctx, ast.Store):
+                    others.add(n.id)
+        else:
+            others = {"replay_msg", "_", "msg_seq_num", "is_sess_msg", "gap_fill_msg", "enc_msg"}
+        return begin, end, others - {begin, end}
+
     def _locals(self, fr):
-        return fr.locals["gap_fill_begin"], fr.locals["gap_fill_end"]
+        b, e, _ = self._names()
+        return fr.locals[b], fr.locals[e]
 
     def inv(self, I, fr, i):
+        keep = getattr(self.env, "inv_keep", None)
+        cl = self._inv(I, fr, i)
+        return cl if keep is None else [(n, c) for n, c in cl if n in keep]
+
+    def _inv(self, I, fr, i):
         env = self.env
         gfb, gfe = self._locals(fr)
         sess = env.conn.f["_session"].f
@@ -196,9 +225,10 @@ class ResendLoop:
             env.conn.f["_connection_state"] = saved[4]
             g["W"], g["EV"] = list(saved[5]), list(saved[6])
         self._undo = undo
-        fr.locals["gap_fill_begin"] = ctx.inp_int("gfb")
-        fr.locals["gap_fill_end"] = ctx.inp_int("gfe")
-        for nm in ("replay_msg", "_", "msg_seq_num", "is_sess_msg", "gap_fill_msg", "enc_msg"):
+        nm_b, nm_e, others = self._names()
+        fr.locals[nm_b] = ctx.inp_int("gfb")
+        fr.locals[nm_e] = ctx.inp_int("gfe")
+        for nm in others:
             fr.locals.pop(nm, None)
         sess = env.conn.f["_session"].f
         jr = env.conn.f["_journaler"].f
@@ -217,10 +247,12 @@ class ResendLoop:
         env.use(i - 1)
         # instances of the universally quantified invariant clause `no_row_from_gap_begin_on` at the numbers the body
         # files frames under (its instance at the probe k0 comes with inv())
-        gfb = fr.locals["gap_fill_begin"]
+        gfb = fr.locals[nm_b]
         seq = seqf()
-        for t in (gfb.t, seq(_t(i))):
-            ctx.assume(SBool(z3.Implies(t >= gfb.t, z3.Not(z3.Select(R, t)))))
+        keep = getattr(env, "inv_keep", None)
+        if keep is None or "no_row_from_gap_begin_on" in keep:
+            for t in (gfb.t, seq(_t(i))):
+                ctx.assume(SBool(z3.Implies(t >= gfb.t, z3.Not(z3.Select(R, t)))))
         return undo
 
     def after_body(self, I, fr, i):
@@ -238,7 +270,20 @@ class ResendLoop:
         cl.append(("only_frames", len(frames) == len(new)))
         retx = [f for f in frames if f.msg is env.row_msg]
         gaps = [f for f in frames if f.msg is not env.row_msg]
-        cl.append(("no_new_number", all(f.new_number is False for f in frames)))
+        needs = getattr(env, "needs", None)
+        if needs is None or "traffic_no_new_number" in needs:
+            cl.append(("no_new_number", all(f.new_number is False for f in frames)))
+        # (what the callee relation of inbound_common says about the opaque tail of frames: nothing written inside the
+        #  loop is a session-level message other than a SequenceReset)
+
+        def ty(f):
+            return f.mtype.value if hasattr(f.mtype, "value") else f.mtype
+        cl.append(("no_session_message_written",
+                   And(*[Or(Eq(ty(f), "4"), Not(Or(*[Eq(ty(f), t) for t in SESSION_TYPES]))) for f in frames])))
+        if getattr(env, "relation_only", False):
+            # refinement task run under another property: the sentences of C06's own statement about what is
+            # retransmitted and how (below) are not that property's business
+            return cl
         # session-level rows and rows the application declines are never retransmitted
         cl.append(("session_or_declined_not_retransmitted", Implies(Or(is_sess, Not(rp)), len(retx) == 0 and len(gaps) == 0)))
         cl.append(("accepted_application_row_retransmitted_once", Implies(And(Not(is_sess), rp), len(retx) == 1)))
@@ -332,10 +377,13 @@ class _LateLoop:
         self.holder = holder
 
     def run_for(self, I, st, it):
+        self.holder["loop"].for_node = st
         return InvariantLoop(self.holder["loop"]).run_for(I, st, it)
 
 
-def harness(no_holes):
+def harness(no_holes, relation_only=False):
+    """relation_only: run under another property (C09 / C05: stored = live after a resend) - the sentences of C06's
+    own statement about what is retransmitted and how are not generated (see ResendLoop.after_body)"""
     def h(I):
         c = I.ctx
         conn = sc.mk_conn(I, states=PRE_STATES, writer=True, reader=True)
@@ -351,6 +399,7 @@ def harness(no_holes):
         for n, cl in ic.inv_clauses(pre, k0):
             c.assume(cl)
         env = Env(I, conn, pre, no_holes)
+        env.relation_only = relation_only
         env.st_entry = None
         holder = I.cfg.c06
         holder["recover"] = contract_recover_messages(env)
@@ -426,6 +475,58 @@ def final_clauses(env, pre, post, m):
             # covering exactly the requested range: with a bounded EndSeqNo the chain stops there
             cl.append(("after.chain_stops_at_requested_end", Implies(bounded, And(ok36, (v36 <= e_raw + 1) if ok36 else False))))
     return cl
+
+
+def refinement_harness(I, needs=None, inv_keep=None):
+    """The callee contract the dispatcher proofs use for _process_resend (inbound_common.contract_process_resend =
+    havoc + the relation resend_kind_clauses) over-approximates the real body: from every connected state, under the
+    invariant the weakest caller has (no I2), every path of the real function satisfies the relation for one of the
+    four kinds of outcome.  Frames written inside the loop are the opaque tail of the relation; that they are
+    resend traffic is the loop.iteration.* obligations of this same task.  `needs`: the scalar clauses the caller's
+    contract instance assumes (the others are havocked there and not demanded here)."""
+    c = I.ctx
+    conn = sc.mk_conn(I, states=ic.RESEND_CALL_STATES, writer=True, reader=True)
+    msg = sc.mk_msg(I, "m", mtype="2")
+    m = sc.emsg(I, "m", mtype="2", register=("7", "16"))
+    FM = I.repo.get("asyncfix.msgtype.FMsg")
+    msg.f["_msg_type"] = I.class_attr(FM, "RESENDREQUEST")
+    pre = sc.eview(I, conn)
+    I.ctx.ghost["pre_view"] = pre
+    k0 = c.inp_int("k0")
+    I.ctx.ghost["k0"] = k0
+    for n, cl in ic.inv_clauses(pre, k0, with_i2=False):
+        c.assume(cl)
+    env = Env(I, conn, pre, False)
+    env.relation_only = needs is not None
+    env.needs = needs
+    env.inv_keep = inv_keep
+    env.st_entry = None
+    holder = I.cfg.c06
+    holder["recover"] = contract_recover_messages(env)
+    holder["decode"] = contract_decode(env)
+    holder["should_replay"] = contract_should_replay(env)
+    holder["loop"] = ResendLoop(env)
+    loop = holder["loop"]
+    orig_inv = loop.inv
+
+    def inv_capture(I_, fr, i):
+        if env.st_entry is None:
+            env.st_entry = sc.view(I_, conn)["st"]
+        return orig_inv(I_, fr, i)
+    loop.inv = inv_capture
+    out = sc.run(I, I.getattr(conn, "_process_resend"), [msg])
+    post = sc.eview(I, conn, out)
+    c.notes.append(("outcome", post.outcome))
+    forms = [(kind, ic.resend_kind_formula(kind, pre, post, m, k0, needs)) for kind in ic.RESEND_KINDS]
+    live = [f for _k, f in forms if f is not False]
+    c.notes.append(("kinds_structurally_possible", [k for k, f in forms if f is not False]))
+    goal = False if not live else (True if any(f is True for f in live) else Or(*live))
+    import os
+    if os.environ.get("C06_REFINE_DEBUG"):
+        # diagnostic only (tools/runtask.py): every clause of the kind named in the variable as its own obligation
+        kind = os.environ["C06_REFINE_DEBUG"]
+        return [(f"dbg.{kind}.{n}", cl) for n, cl in ic.resend_kind_clauses(kind, pre, post, m, k0)]
+    return [("refinement.process_resend.outcome_is_one_of_the_contract_kinds", goal)]
 
 
 def mustfail(I):
@@ -571,20 +672,48 @@ def violates(rp, obs):
 
 FUNCS = [CONN + "._process_resend", CONN + ".send_msg", CONN + "._state_set"]
 
+INV_CLAUSES = ("counter_rewound_to_begin", "state_kept", "gap_bounds_from_begin", "gap_bounds_first",
+               "gap_bounds_behind_previous_row", "gap_begin_not_past_next_row", "rows_below_begin_untouched",
+               "no_row_from_gap_begin_on")
+
+
+def refinement_task(needs=None, inv_keep=None):
+    """shared with the properties whose dispatcher proofs call _process_resend by contract (C04 C09 C11 C12 C14), each
+    with the clauses its own contract instance assumes and the part of the loop invariant those clauses need"""
+    import os
+    if needs is not None and os.environ.get("RESEND_NEEDS_DROP"):
+        needs = frozenset(needs) - set(os.environ["RESEND_NEEDS_DROP"].split(","))
+    if needs is not None and os.environ.get("RESEND_INV_DROP"):  # experiment switch of tools/resend_needs.py --inv
+        inv_keep = frozenset(inv_keep if inv_keep is not None else INV_CLAUSES) - set(os.environ["RESEND_INV_DROP"].split(","))
+
+    def h(I):
+        return refinement_harness(I, needs, inv_keep)
+    return Task("refinement[_process_resend]", h, resend_cfg(None, False), FUNCS, timeout_ms=20000)
+
+
 TASKS = [
     Task("_process_resend", harness(False), resend_cfg(None, False), FUNCS, timeout_ms=20000, native="conn"),
     Task("_process_resend[no_holes]", harness(True), resend_cfg(None, True), FUNCS, timeout_ms=20000, native="conn"),
+    refinement_task(),
     Task("mustfail", mustfail, resend_cfg(None, False), [], expect_refuted=True),
 ]
+# the callee contracts of this proof decided on the real bodies in the same run: Codec.encode's number choice (C05's
+# harness), Journaler.set_seq_num / persist_msg / recover_messages (C13's harnesses and refinement lemmas)
+import shared_tasks as _st  # noqa: E402
+TASKS[-1:-1] = _st.encode_tasks() + _st.journal_tasks(ops=("persist_msg", "set_seq_num", "recover_messages"),
+                                                       durability=False, direction="OUTBOUND")
 
 PROPERTY = Property(
     "C06", TASKS,
     assumptions=[
         "I7 (ghost journal invariant): an OUTBOUND row filed under number k is the frame send_msg journaled under k, so "
         "Codec.decode(row) yields a message with tag 34 = k and the header tags 8/9/35/49/56/52/10 (rests on the "
-        "encode/decode round trip, C01, which is not built; a row that does not decode raises out of the loop)",
+        "encode/decode round trip, which C01 decides by a bounded stand-in only; a row that does not decode raises out of the loop)",
         "Journaler.recover_messages returns the session's OUTBOUND rows of [BeginSeqNo, EndSeqNo] ascending and distinct "
-        "(proved on the SQL body in C13); set_seq_num / persist_msg abstract contracts (C13); Codec.encode number choice (C05)",
+        "(C13's recover.* clauses on the SQL body, task journal.recover_messages of this run; the link between those "
+        "clauses and contract_recover_messages is by reading); set_seq_num / persist_msg abstract contracts are "
+        "consequences of the clauses proved on the SQL bodies in this run (journal.* tasks with their refinement "
+        "lemmas); Codec.encode's number choice on the real body in this run (callee.* tasks)",
         "should_replay is a pure hook (arbitrary boolean per row, no effect on connection / session / journal state); "
         "A-HOOK, A-IO, A-LOG as in C05; pre-state satisfies Inv (I1-I4, I6) and is a logged-on state",
         "A-ALL / A-IND: 'every row ...' from the clauses of one arbitrary iteration under the inductive loop invariant; "
